@@ -157,7 +157,8 @@ def _tools():
 
 
 TOOLS = _tools()
-TEE_PATTERNS = ["lockstep", "lead8", "lag_then_close", "close_unstarted", "three_children", "handle_close_midway"]
+TEE_PATTERNS = ["lockstep", "lead8", "lag_then_close", "close_unstarted", "three_children", "handle_close_midway",
+                "biglag_close_last", "biglag_close_middle", "biglag_close_first"]
 
 
 def cases(tier, seed, shard, nshards):
@@ -232,6 +233,31 @@ def run_tee(case, stats):
     stream = Stream(census, n)
 
     async def main():
+        if pat.startswith("biglag_close"):
+            # one child leads by half the stream, a started lagging child is then closed while the
+            # leader does NOT fetch again: the backlog held for the closed child must be released at once
+            kids3 = list(A.tee(stream, 3))
+            lagger = {"biglag_close_last": 2, "biglag_close_middle": 1, "biglag_close_first": 0}[pat]
+            leader = 0 if lagger != 0 else 2
+            other = 3 - lagger - leader
+            census.bound = 2 + 2 + (n // 2) + 3
+            item = await A.anext(kids3[lagger])
+            del item
+            for _ in range(n // 2):
+                item = await A.anext(kids3[leader])
+                del item
+                item = await A.anext(kids3[other])
+                del item
+            census.sample("leader and one follower half way, third child lagging")
+            await kids3[lagger].aclose()
+            census.bound = 2 + 2 + 1 + 3
+            census.sample("right after closing the lagging child (no further fetch)")
+            async for item in kids3[leader]:
+                del item
+                item = await A.anext(kids3[other], None)
+                del item
+                census.sample("after the close")
+            return
         handle = A.tee(stream, nchild)
         kids = list(handle)
         if pat == "close_unstarted":
